@@ -1,0 +1,150 @@
+//go:build verif
+
+package filesys
+
+// Contracts for the gvc verifier (/verif). Comment-only: this file adds no
+// code. Syntax: /verif/DESIGN.md §2.2.
+//
+// Reference model (properties C12-C14): directories, names -> inode, inode ->
+// bytes, descriptors -> (inode, mode). For MemFs the representation is
+// validDirs / dirents / inodes / openFiles (a descriptor IS the inode number,
+// which is the known defect recorded for Open).
+
+//@ ghost var held_w map[Int]bool
+//@ ghost var held_r map[Int]bool
+
+//@ assume func (*sync.Mutex).Lock (m)
+//@   requires !held_w[ref(m)]
+//@   modifies held_w
+//@   ensures held_w == old(held_w)[ref(m) := true]
+//@ assume func (*sync.Mutex).Unlock (m)
+//@   requires held_w[ref(m)]
+//@   modifies held_w
+//@   ensures held_w == old(held_w)[ref(m) := false]
+
+//@ ghost func simple(name string) bool
+//@ assume func path.Clean (p)
+//@   ensures simple(p) ==> result == p
+
+//@ ghost func isdir(fs *MemFs, d string) bool = has(fs.validDirs, d) && fs.validDirs[d]
+//@ ghost func mkp(d string, n string) pathname = struct(pathname, d, n)
+
+// representation invariant of MemFs
+//@ ghost func rinv(fs *MemFs) bool = fs != nil && fs.validDirs != nil && fs.inodes != nil && fs.dirents != nil && fs.openFiles != nil
+//@ ... && ref(fs.inodes) != ref(fs.openFiles)
+//@ ... && (forall i int :: has(fs.inodes, i) <==> (1 <= i && i <= len(fs.inodes)))
+//@ ... && (forall q pathname :: has(fs.dirents, q) ==> has(fs.inodes, fs.dirents[q]))
+//@ ... && (forall i int :: has(fs.openFiles, i) ==> has(fs.inodes, i))
+//@ ... && (forall i int, j int :: has(fs.inodes, i) && has(fs.inodes, j) && i != j && fs.inodes[i].arr != 0 ==> fs.inodes[i].arr != fs.inodes[j].arr)
+//@ ... && (forall i int :: has(fs.inodes, i) ==> fs.inodes[i].arr < brk && len(fs.inodes[i]) <= cap(fs.inodes[i]) && cap(fs.inodes[i]) < 0x1000000000000 && fs.inodes[i].off < 0x1000000000000 && (fs.inodes[i].arr == 0 ==> cap(fs.inodes[i]) == 0))
+
+// caller memory is never file storage
+//@ ghost func noalias(fs *MemFs, x []byte) bool = forall i int :: has(fs.inodes, i) ==> fs.inodes[i].arr != x.arr
+// lock protocol: free at entry
+//@ ghost func unlocked(fs *MemFs) bool = !held_w[&fs.m]
+
+//@ props C12 C13 C14
+
+//@ func NewMemFs
+//@   ensures [empty, well-formed file system] rinv(result) && fresh(result)
+//@   ensures [no directories, files or descriptors] (forall d string :: !has(result.validDirs, d)) && (forall q pathname :: !has(result.dirents, q)) && (forall i int :: !has(result.inodes, i) && !has(result.openFiles, i))
+
+//@ func (*MemFs).Mkdir
+//@   requires rinv(fs) && unlocked(fs)
+//@   lock &fs.m
+//@   ensures [directory exists afterwards] isdir(fs, dir)
+//@   ensures [other directories unchanged] forall d string :: d != dir ==> has(fs.validDirs, d) == old(has(fs.validDirs, d)) && fs.validDirs[d] == old(fs.validDirs[d])
+//@   ensures [invariant, lock released] rinv(fs) && held_w == old(held_w)
+//@   modifies map(fs.validDirs), held_w
+
+//@ func (*MemFs).Create
+//@   requires rinv(fs) && unlocked(fs)
+//@   lock &fs.m
+//@   panics_iff [directory must exist] !isdir(fs, dir)
+//@   on_panic [nothing changed, lock released] unchanged()
+//@   ensures [fails without side effects iff the name exists] old(has(fs.dirents, mkp(dir, fname))) ==> result.0 == File(-1) && !result.1 && unchanged()
+//@   ensures [succeeds otherwise] !old(has(fs.dirents, mkp(dir, fname))) ==> result.1
+//@   ensures [fresh inode and descriptor] result.1 ==> !old(has(fs.inodes, int(result.0))) && !old(has(fs.openFiles, int(result.0)))
+//@   ensures [name bound to the new empty inode, opened for append] result.1 ==> has(fs.dirents, mkp(dir, fname)) && fs.dirents[mkp(dir, fname)] == int(result.0) && has(fs.inodes, int(result.0)) && len(fs.inodes[int(result.0)]) == 0 && has(fs.openFiles, int(result.0)) && fs.openFiles[int(result.0)] == appendMode
+//@   ensures [all other names unchanged] forall q pathname :: q != mkp(dir, fname) ==> has(fs.dirents, q) == old(has(fs.dirents, q)) && fs.dirents[q] == old(fs.dirents[q])
+//@   ensures [all other inodes unchanged] forall i int :: old(has(fs.inodes, i)) ==> has(fs.inodes, i) && fs.inodes[i] == old(fs.inodes[i])
+//@   ensures [all other descriptors unchanged] forall i int :: old(has(fs.openFiles, i)) ==> has(fs.openFiles, i) && fs.openFiles[i] == old(fs.openFiles[i])
+//@   ensures [invariant, lock released] rinv(fs) && held_w == old(held_w)
+//@   modifies map(fs.dirents), map(fs.inodes), map(fs.openFiles), held_w
+
+//@ func (*MemFs).Append
+//@   requires rinv(fs) && unlocked(fs) && noalias(fs, data)
+//@   lock &fs.m
+//@   unguarded data
+//@   panics_iff [descriptor must be open for append] !has(fs.openFiles, int(f)) || fs.openFiles[int(f)] != appendMode
+//@   on_panic [nothing changed, lock released] unchanged()
+//@   ensures [length grows by len(data)] len(fs.inodes[int(f)]) == old(len(fs.inodes[int(f)])) + len(data)
+//@   ensures [old contents kept] forall i int :: 0 <= i && i < old(len(fs.inodes[int(f)])) ==> fs.inodes[int(f)][i] == old(fs.inodes[int(f)][i])
+//@   ensures [data appended] forall i int :: 0 <= i && i < len(data) ==> fs.inodes[int(f)][old(len(fs.inodes[int(f)])) + i] == old(data[i])
+//@   ensures [same inodes, others untouched] forall i int :: has(fs.inodes, i) == old(has(fs.inodes, i)) && (i != int(f) ==> fs.inodes[i] == old(fs.inodes[i]))
+//@   ensures [data is not retained] noalias(fs, data)
+//@   ensures [invariant, lock released] rinv(fs) && held_w == old(held_w)
+//@   modifies map(fs.inodes), elems(fs.inodes[int(f)], len(fs.inodes[int(f)]), cap(fs.inodes[int(f)])), held_w
+
+//@ func (*MemFs).Close
+//@   requires rinv(fs) && unlocked(fs)
+//@   lock &fs.m
+//@   panics_iff [descriptor must be open] !has(fs.openFiles, int(f))
+//@   on_panic [nothing changed, lock released] unchanged()
+//@   ensures [descriptor removed, all others untouched] forall i int :: has(fs.openFiles, i) == (old(has(fs.openFiles, i)) && i != int(f)) && (i != int(f) ==> fs.openFiles[i] == old(fs.openFiles[i]))
+//@   ensures [invariant, lock released] rinv(fs) && held_w == old(held_w)
+//@   modifies map(fs.openFiles), held_w
+
+//@ func (*MemFs).Open
+//@   requires rinv(fs) && unlocked(fs) && simple(fname)
+//@   lock &fs.m
+//@   panics_iff [directory and file must exist] !isdir(fs, dir) || !has(fs.dirents, mkp(dir, fname))
+//@   on_panic [nothing changed, lock released] unchanged()
+//@   ensures [descriptor refers to the named inode, read mode] has(fs.openFiles, int(result)) && fs.openFiles[int(result)] == readMode && int(result) == fs.dirents[mkp(dir, fname)]
+//@   ensures [independent descriptor: not open before] !old(has(fs.openFiles, int(result)))
+//@   ensures [other descriptors untouched] forall i int :: i != int(result) ==> has(fs.openFiles, i) == old(has(fs.openFiles, i)) && fs.openFiles[i] == old(fs.openFiles[i])
+//@   ensures [invariant, lock released] rinv(fs) && held_w == old(held_w)
+//@   modifies map(fs.openFiles), held_w
+
+//@ func (*MemFs).ReadAt
+//@   requires rinv(fs) && unlocked(fs)
+//@   requires [length is allocatable] length < 0x1000000000000
+//@   lock &fs.m
+//@   panics_iff [descriptor must be open for reading] !has(fs.openFiles, int(f)) || fs.openFiles[int(f)] != readMode
+//@   on_panic [nothing changed, lock released] unchanged()
+//@   ensures [exactly the bytes of offset..offset+length that exist] uint64(len(result)) == (offset >= uint64(len(fs.inodes[int(f)])) ? 0 : min(length, uint64(len(fs.inodes[int(f)])) - offset))
+//@   ensures [contents] forall i uint64 :: i < uint64(len(result)) ==> result[i] == old(fs.inodes[int(f)][offset + i])
+//@   ensures [result is fresh storage] len(result) == 0 || fresh(result)
+//@   ensures [lock released] held_w == old(held_w)
+//@   modifies held_w
+
+//@ func (*MemFs).Delete
+//@   requires rinv(fs) && unlocked(fs)
+//@   lock &fs.m
+//@   ensures [name removed, every other name untouched] forall q pathname :: has(fs.dirents, q) == (old(has(fs.dirents, q)) && q != mkp(dir, fname)) && (q != mkp(dir, fname) ==> fs.dirents[q] == old(fs.dirents[q]))
+//@   ensures [invariant, lock released] rinv(fs) && held_w == old(held_w)
+//@   modifies map(fs.dirents), held_w
+
+//@ func (*MemFs).AtomicCreate
+//@   requires rinv(fs) && unlocked(fs) && noalias(fs, data)
+//@   lock &fs.m
+//@   unguarded data
+//@   panics_iff [directory must exist] !isdir(fs, dir)
+//@   on_panic [nothing changed, lock released] unchanged()
+//@   ensures [name bound to a fresh inode] has(fs.dirents, mkp(dir, fname)) && has(fs.inodes, fs.dirents[mkp(dir, fname)]) && (forall i int :: old(has(fs.inodes, i)) ==> i != fs.dirents[mkp(dir, fname)])
+//@   ensures [inode holds exactly a copy of data] len(fs.inodes[fs.dirents[mkp(dir, fname)]]) == len(data) && fresh(fs.inodes[fs.dirents[mkp(dir, fname)]]) && (forall i int :: 0 <= i && i < len(data) ==> fs.inodes[fs.dirents[mkp(dir, fname)]][i] == old(data[i]))
+//@   ensures [all other names unchanged] forall q pathname :: q != mkp(dir, fname) ==> has(fs.dirents, q) == old(has(fs.dirents, q)) && fs.dirents[q] == old(fs.dirents[q])
+//@   ensures [all other inodes unchanged, old inode still readable] forall i int :: old(has(fs.inodes, i)) ==> has(fs.inodes, i) && fs.inodes[i] == old(fs.inodes[i])
+//@   ensures [invariant, lock released] rinv(fs) && held_w == old(held_w)
+//@   modifies map(fs.dirents), map(fs.inodes), held_w
+
+//@ func (*MemFs).Link
+//@   requires rinv(fs) && unlocked(fs)
+//@   lock &fs.m
+//@   panics_iff [directories and source must exist] !isdir(fs, oldDir) || !isdir(fs, newDir) || !has(fs.dirents, mkp(oldDir, oldName))
+//@   on_panic [nothing changed, lock released] unchanged()
+//@   ensures [fails without side effects iff the new name exists] old(has(fs.dirents, mkp(newDir, newName))) ==> !result && unchanged()
+//@   ensures [otherwise both names share the inode] !old(has(fs.dirents, mkp(newDir, newName))) ==> result && has(fs.dirents, mkp(newDir, newName)) && fs.dirents[mkp(newDir, newName)] == old(fs.dirents[mkp(oldDir, oldName)])
+//@   ensures [all other names unchanged] forall q pathname :: q != mkp(newDir, newName) ==> has(fs.dirents, q) == old(has(fs.dirents, q)) && fs.dirents[q] == old(fs.dirents[q])
+//@   ensures [invariant, lock released] rinv(fs) && held_w == old(held_w)
+//@   modifies map(fs.dirents), held_w
